@@ -56,7 +56,13 @@ def main(argv=None):
         return replay(mod, prop, args.replay)
 
     t0 = time.time()
-    case_list = list(mod.cases(args.tier, seed))
+    try:
+        case_list = list(mod.cases(args.tier, seed))
+    except Exception as e:  # a generator that probes the subject (operation counts, ...) may meet a subject it cannot drive
+        import traceback
+
+        print("INCONCLUSIVE property=%s reason=case generation failed: %s: %s | %s" % (prop, type(e).__name__, str(e)[:200], traceback.format_exc().strip().splitlines()[-3][:160]))
+        return 2
     # depth of the thorough tier: ROUNDS further generator passes with derived seeds (fresh random parameters, data and
     # histories on top of whatever the check enumerates exhaustively); VERIF_ROUNDS overrides
     rounds = int(os.environ.get("VERIF_ROUNDS", getattr(mod, "ROUNDS", {}).get(args.tier, 1)))
